@@ -192,6 +192,19 @@ def run(report, tier, seed):
         except Exception as exc:  # noqa: BLE001
             viol.append(("accumulate-raise", f"numpy.add.accumulate(poly) raised {type(exc).__name__}: {exc}", {}))
 
+    # ---- out= through the two spellings ------------------------------------------------------------------
+    pz = numpoly.polynomial([numpoly.variable() + 1, 2 * numpoly.variable() + 3])
+    for label, call_np, call_npl in (("add(p, 1, out=r)", lambda r: numpy.add(pz, 1, out=r), lambda r: numpoly.add(pz, 1, out=r)),
+                                     ("multiply(p, 2, out=r)", lambda r: numpy.multiply(pz, 2, out=r), lambda r: numpoly.multiply(pz, 2, out=r))):
+        n_eval += 1
+        res = []
+        for c in (call_np, call_npl):
+            try:
+                res.append(("ok", str(c(pz.copy()))))
+            except Exception as exc:  # noqa: BLE001
+                res.append(("err", type(exc).__name__))
+        if res[0] != res[1]:
+            viol.append(("out:numpy-spelling", f"numpy.{label} gives {res[0]}, numpoly.{label} gives {res[1]}", {"call": label}))
     # ---- (b) everything else in numpy's override protocol must refuse a polynomial ---------------
     p = numpoly.polynomial([numpoly.variable(), 2])
     q = numpoly.polynomial([1, numpoly.variable() ** 2])
